@@ -273,7 +273,23 @@ def main(argv) -> int:
             defaults.append(show(cls_of(i)()))
         except Exception as ex:  # noqa: BLE001
             defaults.append('?' + type(ex).__name__)
-    real_stdout.write(json.dumps({'out': out, 'defaults': defaults}))
+    # newest-minor-version aliases of the package __init__ (filter_newest_minor_version_aliases / Namespace.j2): ns.T_1 is ns.T_1_<max minor>
+    alias_bad = []
+    groups = {}
+    for key in ORDER:
+        c = drv.TYPES[key]
+        if c['service_part']:
+            continue
+        groups.setdefault((tuple(c['ns']), c['short_name'], c['major']), []).append(c)
+    for (nsp, short, major), cs in groups.items():
+        newest = max(cs, key=lambda c: c['minor'])
+        try:
+            mod = drv._import_ns(list(nsp))
+            if getattr(mod, '%s_%d' % (short, major)) is not drv.get_cls(newest['id']):
+                alias_bad.append('%s.%s_%d is not %s' % ('.'.join(nsp), short, major, newest['id']))
+        except Exception as ex:  # noqa: BLE001
+            alias_bad.append('%s.%s_%d: %s' % ('.'.join(nsp), short, major, type(ex).__name__))
+    real_stdout.write(json.dumps({'out': out, 'defaults': defaults, 'alias_bad': alias_bad, 'alias_checked': len(groups)}))
     real_stdout.flush()
     return 0
 
